@@ -107,6 +107,9 @@ def call_strategy(moves=True, extras=True):
             st.just(C("comment", "note")),
             st.sampled_from([None, {"decimal_places": 1}, {"comment_symbols": "(", "y_axis": "V"}]).map(
                 lambda c: {"op": "other_builder", "cfg": c}),
+            # a traced path that fails part-way (a hook raises on segment after+1)
+            st.tuples(st.sampled_from(["circle", "polyline", "spline"]), st.integers(0, 4)).map(
+                lambda t: {"op": "aborted_path", "shape": t[0], "after": t[1]}),
         )
         opts += [misc, misc]
     return st.one_of(*opts)
